@@ -81,6 +81,10 @@ def mk_lines(kind: str, text: str, n: int) -> Tuple[Any, bool]:
         "junk_obj": b'{"foo": 1}',
         "junk_noresult": b'{"jsonrpc":"2.0","id":5}',
         "junk_nullid_result": b'{"jsonrpc":"2.0","id":null,"result":{}}',
+        "junk_bool_id": b'{"jsonrpc":"2.0","id":true,"result":{"x":1}}',
+        "junk_float_id": b'{"jsonrpc":"2.0","id":1.5,"method":"ping"}',
+        "ws_nel_prefixed": "\u0085{\"jsonrpc\":\"2.0\",\"method\":\"notifications/nel\"}".encode("utf-8"),
+        "ws_ff_wrapped": b'\x0c{"jsonrpc":"2.0","method":"notifications/ff"}\x1c',
 
         "junk_both": b'{"jsonrpc":"2.0","id":5,"result":{},"error":{"code":1,"message":"m"}}',
         "junk_badutf8": b'{"jsonrpc":"2.0","method":"notifications/\xff\xfe"}',
@@ -97,7 +101,7 @@ MSG_KINDS = ["note", "req", "resp", "err", "key", "batch", "resp_arr", "resp_str
              "req_noparams", "note_noparams", "resp_id0", "resp_idempty", "err_id0", "req_idneg"]
 JUNK_KINDS = ["junk_text", "junk_brace", "junk_scalar", "junk_string", "junk_null", "junk_obj", "junk_noresult",
               "junk_both", "junk_badutf8", "junk_badutf8_2", "junk_empty", "junk_spaces", "lenient_v1", "junk_trunc_utf8",
-              "junk_nullid_result"]
+              "junk_nullid_result", "junk_bool_id", "junk_float_id", "ws_nel_prefixed", "ws_ff_wrapped"]
 
 
 def build_stream(spec: List[Tuple[str, str, str, bool]]) -> bytes:
@@ -119,13 +123,21 @@ def reference_framing(stream: bytes) -> Tuple[List[Tuple[Any, bool]], List[Tuple
             t = line.decode("utf-8")
         except UnicodeDecodeError:
             continue
+        # JSON's own whitespace is space, tab, CR, LF; a line that only parses after a more generous strip (NEL, FF, FS..)
+        # is not valid JSON: the reader may drop it or tolerate it
+        strict = t.strip(" \t\r\n")
         t = t.strip()
         if not t:
             continue
+        generous_only = False
         try:
-            obj = json.loads(t)
+            obj = json.loads(strict)
         except Exception:
-            continue
+            try:
+                obj = json.loads(t)
+                generous_only = True
+            except Exception:
+                continue
         members = obj if isinstance(obj, list) else [obj]
         if isinstance(obj, list) and not obj:
             continue
@@ -134,9 +146,9 @@ def reference_framing(stream: bytes) -> Tuple[List[Tuple[Any, bool]], List[Tuple
             if c == "invalid":
                 continue
             n = norm_any(mobj)
-            read.append((n, c == "valid"))
+            read.append((n, c == "valid" and not generous_only))
             if n[0] == "notification":
-                notes.append((n, c == "valid"))
+                notes.append((n, c == "valid" and not generous_only))
     return read, notes
 
 
@@ -222,10 +234,10 @@ def cut(stream, cuts):
     return [p for p in pieces if len(p) or not cuts]
 
 
-def transcript(stream: bytes, mode: str, cuts: List[int], drain_notifications: bool = True):
+def transcript(stream: bytes, mode: str, cuts: List[int], drain_notifications: bool = True, register: Any = None):
     data: Any = stream if mode == "bytes" else stream.decode("utf-8")
     pieces = cut(data, cuts)
-    steps = []
+    steps = [("register_stream", str(i)) for i in (register or [])]
     for p in pieces:
         steps += [("feed", p), ("settle",)]
     out = run_stdio_script(steps, drain_notifications=drain_notifications)
@@ -234,12 +246,15 @@ def transcript(stream: bytes, mode: str, cuts: List[int], drain_notifications: b
     return read, notes, out["reader_alive"], out["stdin"], [norm_any(m) for m in out.get("late", [])]
 
 
-def check_one(ctx, sid: int, spec, stream: bytes, mode: str, cuts: List[int], baseline, drain_notifications: bool = True) -> None:
+def check_one(ctx, sid: int, spec, stream: bytes, mode: str, cuts: List[int], baseline, drain_notifications: bool = True,
+              register: Any = None) -> None:
     case = {"spec": [list(s) for s in spec], "mode": mode, "cuts": cuts}
     if not drain_notifications:
         case["drain_notifications"] = False
+    if register:
+        case["register"] = list(register)
     try:
-        read, notes, alive, stdin, late = transcript(stream, mode, cuts, drain_notifications)
+        read, notes, alive, stdin, late = transcript(stream, mode, cuts, drain_notifications, register)
     except Exception as e:  # noqa
         ctx.violation("reader_crashed_harness", f"session failed: {e!r}", case)
         ctx.record(case, shape="crash")
@@ -316,6 +331,17 @@ def run(ctx):
             if ctx.out_of_time("chunkings"):
                 break
             check_one(ctx, sid, spec, stream, mode, cuts, baseline if cuts else None)
+        # the same stream while per-request streams (new_request_stream) are registered for the ids it carries: the main
+        # read stream must still see every line
+        ids = []
+        for n_, (kind_, text_, _t, _e) in enumerate(spec):
+            val_, raw_ = mk_lines(kind_, text_, n_)
+            for m_ in ((val_ if isinstance(val_, list) else [val_]) if not raw_ else []):
+                if isinstance(m_, dict) and m_.get("id") is not None:
+                    ids.append(m_["id"])
+        if ids and ctx.mine():
+            ctx.count("sessions_with_request_streams")
+            check_one(ctx, sid, spec, stream, "bytes", [len(stream) // 2] if len(stream) > 2 else [], baseline, register=ids)
     # many notifications while nobody reads client.notifications (the best-effort side stream fills up at 100):
     # the main read stream must still carry every message
     for k, n_notes in enumerate((120, 250) if ctx.tier == "quick" else (101, 120, 250, 1000)):
